@@ -288,6 +288,10 @@ func (t *Typed) UnmarshalYAML(unmarshal func(interface{}) error) error {
 type Intersection []Query
 
 func (i Intersection) Compile(index FeatureIndex, w World) search.Iterator {
+	if len(i) == 0 {
+		// An intersection of no queries matches everything, as Matches does.
+		return All{}.Compile(index, w)
+	}
 	qs := make(search.Intersection, len(i))
 	for ii, q := range i {
 		qs[ii] = adaptQuery{Query: q, World: w}
